@@ -66,10 +66,16 @@ func VerifH_CloseCompletes() {
 	vrt.Cover("before-close")
 
 	var closeErr error
-	closeDone := false
-	go func() { closeErr = m.Close(); closeDone = true }()
+	closeDone, exitedAtReturn := false, false
+	go func() {
+		closeErr = m.Close()
+		// white-box: the reader and the stream manager announce their exit through these signals
+		exitedAtReturn = m.sigs.stream.IsSet() && m.sigs.read.IsSet() && m.sigs.tport.IsSet()
+		closeDone = true
+	}()
 	vrt.Quiesce()
 	vrt.Assert(closeDone, "Close returns")
+	vrt.Assert(exitedAtReturn, "when Close returns the reader and the stream manager have exited and the transport's Close has returned")
 	vrt.Assert(closeErr == nil, "Close returns the transport's close result")
 	vrt.Assert(tr.Closes == 1, "the transport is closed exactly once")
 	vrt.Assert(opDone, "the pending application call returns")
@@ -161,8 +167,10 @@ func VerifH_CloseAfterTermination() {
 	ctx := hx.NewCtx()
 	stream, err := m.NewClientStream(ctx, "rpc")
 	vrt.Assert(err == nil, "NewClientStream succeeds")
-	cause := vrt.Choice("cause", 3)
+	cause := vrt.Choice("cause", 4)
 	switch cause {
+	case 3: // another goroutine is already inside Close
+		go func() { _ = m.Close() }()
 	case 0: // the peer goes away: the reader sees EOF and terminates the manager
 		tr.EOF = true
 		tr.CanRead = true
@@ -182,7 +190,7 @@ func VerifH_CloseAfterTermination() {
 	go func() {
 		closeErr = m.Close()
 		inIOAtReturn = tr.InRead || tr.InWrite || tr.InClose
-		closeRetAtReturn = tr.CloseRet
+		closeRetAtReturn = tr.CloseRet && m.sigs.stream.IsSet() && m.sigs.read.IsSet() && m.sigs.tport.IsSet()
 		closeDone = true
 	}()
 	vrt.Quiesce()
@@ -193,7 +201,7 @@ func VerifH_CloseAfterTermination() {
 	release = true
 	vrt.Quiesce()
 	vrt.Assert(closeDone, "Close returns once the transport lets go")
-	vrt.Assert(closeRetAtReturn && !inIOAtReturn, "Close returns only after the transport's Close returned and no library goroutine is inside a transport call")
+	vrt.Assert(closeRetAtReturn && !inIOAtReturn, "Close returns only after the transport's Close returned, the reader and the stream manager have exited and no library goroutine is inside a transport call")
 	vrt.Assert(closeErr == tr.CloseErr, "Close reports the transport's close error")
 	vrt.Assert(tr.Closes == 1, "the transport is closed exactly once")
 	vrt.Assert(hx.IsClosedCh(stream.Context().Done()), "the active stream's context is cancelled")
